@@ -23,6 +23,7 @@ PROFILES = {
     'S9': dict(create=14, destroy=8, fault=12, clone=8, dropw=5, iter=6, iterd=8, reg=10, probe=8, readall=5, createw=3, newworld=3),
     'S11': dict(create=14, destroy=10, clone=10, switch=10, probe=14, readall=10, dump=6, reg=4, createw=6, write=6, dropw=2, events=4),
     'S12': dict(create=16, createw=5, destroy=14, iterd=8, events=20, clearev=8, clone=3, switch=3, ddestroy=3, todirect=3),
+    'S10': dict(create=22, createw=22, destroy=18, len=14, dump=4, iterd=4, clone=2, switch=2, probe=4, newworld=3),
     'H1': dict(create=10, destroy=4, conv=50, todirect=8, iter=3, clone=1, switch=1),
     'S7': dict(preset=0, create=20, destroy=25, probe=15, dump=5, iterd=5, len=3, todirect=3, dprobe=6),
 }
@@ -331,6 +332,17 @@ class Gen:
             self.nworlds += 1
             self.alive.append(True)
             self.live[obs[1]] = {a: list(v) for a, v in self.live.get(self.cur, {}).items()}
+            if self.profile == 'S11':
+                # clone audit (C13): the same observations on the original and on the clone, back to back
+                orig = self.cur
+                for wi in (orig, obs[1]):
+                    self.do(('switch', wi))
+                    for a in range(self.na):
+                        self.do(('len', a))
+                        self.do(('dump', a))
+                        self.do(('readall', 'slices', a))
+                        self.do(('events', ('a', a)))
+                self.do(('switch', orig))
 
     def op_switch(self):
         cands = [i for i, x in enumerate(self.alive) if x]
